@@ -2,7 +2,7 @@ SPECIFICATION Spec
 CONSTANTS
   MaxStmts = 3
   Funcs = {"f1", "f-2", "f_3"}
-  Files = {"s1", "s2"}
+  Files = {"s1", "s2", "s3"}
   FBody <- FB
   SBody <- SB
   ForPats <- FP
